@@ -1,6 +1,7 @@
 import Falcon.Lemmas.CodecTotal
 import Falcon.Props.C02
 import Falcon.Props.C06
+import Falcon.Props.C12
 
 /-!
 # C03 — decoders and verify are total: untrusted bytes never cause a panic
@@ -82,6 +83,12 @@ theorem verify_total_512 (chk : Bool) (P : Verify.Params) (c s h : List Nat) (hc
 theorem verify_total_1024 (chk : Bool) (P : Verify.Params) (c s h : List Nat) (hc : c.length = 1024) (hh : h.length = 1024) :
     ∃ b, Verify.verifyCore chk P 1024 c s h = .ok b :=
   verify_core_total chk 10 (by decide) P c s h hc hh
+
+/-- `batch_inverse_or_zero` (used when a secret key is decoded and when the public key is derived) never panics
+    on canonical residues, whatever zeros the batch contains (a non-invertible f gives zeros, not a panic) -/
+theorem batch_inverse_total (chk : Bool) (xs : List Nat) (hx : ∀ x ∈ xs, x < Zq.q) :
+    ∃ r, Zq.batchInv chk xs = .ok r ∧ r.length = xs.length :=
+  ⟨_, (C12.batch_inverse_exact chk xs hx).1, by simp⟩
 
 /-- non-vacuity: the former crash inputs (finding F1: a non-last coefficient starting 9 bits before the end;
     F2: 256-bit unary run with the sign bit) are plain rejections -/
